@@ -165,3 +165,54 @@ Boxed.enumerate = lambda bound: [_Obj(dict(value='v0', names=('x', 'y'), mesh=No
 AVal.universe = ['v0', 'v1', 'v2', ('x', 'y'), (), None]
 to_nnx.native = NH('flax.core.meta', 'Partitioned.to_nnx_metadata')
 _LP = lambda bound: [_Obj(dict(value='v0', names=('x',), mesh=None, rules=None))]
+
+
+# ---- lazy_init: initializing mode is on exactly while the function runs - also when it raises -------------------------
+import z3 as _z3
+from pyvc.values import SV as _SV, TypeTag as _TT
+from pyvc.symexec import RaiseEx as _RaiseEx, ExcVal as _ExcVal
+W = 'flax/nnx/bridge/wrappers.py'
+PyObj = opaque('PyObject', is_str=False)
+ArgsT = opaque('PositionalArgs', is_str=False)
+KwT = opaque('KeywordArgs', is_str=False)
+is_module = UFn('is_nnx_module', [PyObj], BOOL, 'isinstance(x, nnx.Module)')
+has_self = UFn('has_self', [PyObj], BOOL, "hasattr(x, '__self__') (bound method)")
+user_fn_raises = UFn('user_fn_raises', [], BOOL, 'the user function raises')
+PyObj.isinstance_hook = lambda ex, v, names: ex.call_value(is_module, [v], {}).t if names == {'Module'} else (_ for _ in ()).throw(OutsideSubset('isinstance ' + repr(names)))
+PyObj.hasattr_hook = lambda ex, v, name: ex.call_value(has_self, [v], {}) if name == '__self__' else (_ for _ in ()).throw(OutsideSubset('hasattr ' + name))
+PyObj.attrs['__self__'] = (PyObj, None)
+
+
+def _call_user_fn(ex, f, a, kw):
+  """fn(*args, **kwargs): arbitrary user code. It runs with the module in initializing mode (obligation) and may raise."""
+  f = ex.deref(f)
+  expected = _z3.If(ex.call_value(is_module, [f], {}).t, f.t, ex.getattr_(f, '__self__').t)
+  mode, mod = ex.ghost.get('init_mode'), ex.ghost.get('init_module')
+  ex.oblige(_z3.And(mode.t, mod.t == expected) if mode is not None else _z3.BoolVal(False), 'pre:fn-runs-in-initializing-mode')
+  ex.ghost['fn_called'] = _SV(BOOL, _z3.BoolVal(True))
+  if ex.decide(ex.call_value(user_fn_raises, [], {}).t, 'user-fn-raises'):
+    raise _RaiseEx(_ExcVal(_TT('UserError', (_TT('Exception'),)), []))
+  return ex.fresh(PyObj, 'fn_result')
+
+
+PyObj.call_hook = _call_user_fn
+
+
+def _set_init(ex, a, kw):
+  ex.ghost['init_module'] = ex.deref(a[0])
+  ex.ghost['init_mode'] = ex.coerce(a[1], BOOL)
+  return NONEV
+
+
+MODULE_OF = '(fn if is_nnx_module(fn) else fn.__self__)'
+OFF = [f"ghost('init_module') == {MODULE_OF}", "not ghost('init_mode')", "ghost('fn_called')"]
+lazy_init = function(
+  W + '::lazy_init', params=[('fn', PyObj), ('args', ArgsT), ('kwargs', KwT)], returns=PyObj,
+  raises={'ValueError': 'not is_nnx_module(fn) and not (has_self(fn) and is_nnx_module(fn.__self__))',
+          'UserError': 'user_fn_raises()'},
+  # the function ran (in initializing mode: obligation at the call), and on the way out the mode is switched off again
+  ensures=['result == fn'] + OFF,
+  bindings={'Module': TypeTag('Module'), '_set_initializing': Handler('_set_initializing', _set_init, 'sets the mode of every object under the module: recorded in ghost state'),
+            'callable': Handler('callable', lambda ex, a, kw: True, 'assert callable(fn): modules passed to lazy_init are callable (assumed)')},
+  modifies=[], props=('C18',))
+lazy_init.ensures_on_raise = {'UserError': OFF}     # an exception of the user function leaves NO object in initializing mode
